@@ -209,9 +209,9 @@ class DistributedNetwork(BaseManager):
         complete for this peer/connection to become a parent and makes it a
         parent if we don't have one, otherwise just close the connection.
         """
-        # A child advertising branch values does not become our parent: we would
-        # be each others parent
-        if peer in self.children:
+        # A child advertising branch values does not become our parent (also not
+        # over another connection): we would be each others parent
+        if any(child.username == peer.username for child in self.children):
             return
 
         # Explicit None checks because we can get 0 as branch level
@@ -239,10 +239,7 @@ class DistributedNetwork(BaseManager):
 
         self.parent = None
 
-        if self._session:
-            await self._notify_server_of_parent()
-        else:
-            logger.warning("not advertising branch levels to server : session is destroyed")
+        await self._notify_server_of_parent()
 
         username = self._settings.credentials.username
 
@@ -257,6 +254,11 @@ class DistributedNetwork(BaseManager):
         """Notifies the server of our parent or if we don't have any, notify the
         server that we are looking for one
         """
+        if not self._session:
+            # Will be done when a new session is initialized
+            logger.warning("not notifying server of our parent : session is destroyed")
+            return
+
         root, level = self._get_advertised_branch_values()
         logger.info("notifying server of our parent : level=%d root=%s", level, root)
 
